@@ -909,6 +909,11 @@ func c03RunCase(x *mc.Exec, dec *c03Dec, tmpls []c03Tmpl, items [][]byte, seq []
 		wh := append([]uint32{}, r.uniqHashes...)
 		sort.Slice(bh, func(i, j int) bool { return bh[i] < bh[j] })
 		sort.Slice(wh, func(i, j int) bool { return wh[i] < wh[j] })
+		for j := 1; j < len(wh); j++ {
+			if wh[j] == wh[j-1] {
+				return bad("unique-duplicate-hash", fmt.Sprintf("row {%s}: the written uniq state holds hash %#x twice (%d items for %d distinct values received)", r.key, wh[j], len(wh), len(e.uniq)))
+			}
+		}
 		same := pb.err == nil && bSkip == r.uniqSkip && len(bh) == len(wh)
 		for j := 0; same && j < len(bh); j++ {
 			same = bh[j] == wh[j]
@@ -1021,7 +1026,7 @@ func (s *c03Stats) outcome(r *c03Row, e *c03RefRow) {
 
 func TestVerifC03(t *testing.T) {
 	rep := mc.NewReport("C03")
-	rep.Rule = "every sequence of 1..L contributions (agent in {int host, string host}) x (12 item templates over a colliding key pool: same key as counter / single value / min-max value with explicit hosts / unique / centroids / implicit centroid, key with one more tag, key with a string tag, key at another timestamp, string-top entries by string and by int) merged through the handler's per-key path with every rng outcome of the host choice, then encoded by rowDataMarshalAppendPositions (budget cannot bind), for skew draws f in {0.5, 0} (sequences of 4, thorough tier: over 8 core templates, f = 0.5 only); plus every sequence of 1..3 contributions of 5 unique-set templates on one key whose unions approach (65535 values), overlap or exceed the exact-mode limit (host-choice draws capped to 4 evenly spread outcomes there). Non-trivial = some row received at least two contributions"
+	rep.Rule = "every sequence of 1..L contributions (agent in {int host, string host}) x (12 item templates over a colliding key pool: same key as counter / single value / min-max value with explicit hosts / unique / centroids / implicit centroid, key with one more tag, key with a string tag, key at another timestamp, string-top entries by string and by int) merged through the handler's per-key path with every rng outcome of the host choice, then encoded by rowDataMarshalAppendPositions (budget cannot bind), for skew draws f in {0.5, 0} (sequences of 4, thorough tier: over 8 core templates, f = 0.5 only); plus every sequence of 1..3 contributions of 5 unique-set templates on one key whose unions approach (65535 values), overlap or exceed the exact-mode limit (host-choice draws capped to 4 evenly spread outcomes there); plus, for every table size degree of the tier, unique sets whose hashes collide in the last slot / slot 0 of the sketch's hash table (wrap-around chains of length 1-3 in every insertion order) followed by every sequence of 1-3 further contributions that grow the set across one or two table resizes and repeat the wrapped values. Non-trivial = some row received at least two contributions"
 	rep.Assume("seam: the per-item core of handleSendSourceBucket (key, hash->shard, lockShard, GetOrCreateMultiItem, MergeWithTLMultiItem) is replicated in the harness; the RPC handler around it (shard/replica checks, tag mapping, long poll) is not driven")
 	rep.Assume("metric meta is 'missing' for the user metric (no skip-host / skip-sumsquare flags); string tags stay unmapped")
 	rep.Assume("RowBinary layout of the aggregate states (quantilesTDigest, uniq, argMin/argMax(String,Float32)) is taken from ClickHouse's serialization as re-implemented by the harness parser")
@@ -1082,6 +1087,8 @@ func TestVerifC03(t *testing.T) {
 	rep.MergeExplore("insert-body-large-unique", st2)
 	stat2.nontrivial += stat2.nontrivialDup / 2
 	rep.AddCounts(0, 0, 0, stat2.nontrivial)
+	// hashes chosen against the sketch's hash table (wrap-around chains across resizes), see verif_c03_adv_test.go
+	st3, stat3 := c03AdversarialPart(t, rep, decs)
 	body := func(x *mc.Exec) mc.Verdict {
 		L := 1 + x.ChooseFree(maxL, "number of contributions")
 		fi := 0
@@ -1115,5 +1122,5 @@ func TestVerifC03(t *testing.T) {
 	if err := rep.Write(); err != nil {
 		t.Fatal(err)
 	}
-	t.Logf("C03: executions=%d+%d rows judged=%d+%d nontrivial=%d+%d violations=%d", st.Executions, st2.Executions, stat.rows, stat2.rows, stat.nontrivial, stat2.nontrivial, rep.NumViolations())
+	t.Logf("C03: executions=%d+%d+%d (main, large-unique, adversarial-unique) rows judged=%d+%d+%d nontrivial=%d+%d+%d violations=%d", st.Executions, st2.Executions, st3.Executions, stat.rows, stat2.rows, stat3.rows, stat.nontrivial, stat2.nontrivial, stat3.nontrivial, rep.NumViolations())
 }
